@@ -231,10 +231,13 @@ def judge_sessions(prop, rep, events, name):
         lo = starts[si]
         ev = events[v["index"]]
         cls = re.sub(r"(model|random|life)\d+", r"\1", v["cls"])
-        window = [{k2: e[k2] for k2 in e if k2 in ("ev", "keys", "quit", "code", "added", "hex", "exit", "alive", "quit_sent", "retry")}
-                  for e in events[max(lo, v["index"] - 12):v["index"] + 1]]
+        keep = ("ev", "keys", "quit", "code", "added", "hex", "exit", "alive", "quit_sent", "retry", "tag", "filter_time", "panic",
+                "termios_before", "termios_after", "modes")
+        hi = next((j for j in range(v["index"], len(events)) if events[j]["ev"] == "session_end"), v["index"])
+        whole = [{k2: e[k2] for k2 in e if k2 in keep} for e in events[lo:hi + 1]]
+        window = whole[max(0, v["index"] - lo - 12):v["index"] - lo + 1]
         for owner, field in v["pairs"]:
-            rep.mismatch(owner, cls, field, {"kind": "session", "session_start": events[lo], "events_before": window})
+            rep.mismatch(owner, cls, field, {"kind": "session", "session_start": events[lo], "events_before": window, "events": whole})
     rep.extra["lifecycle_sessions_judged"] = rep.extra.get("lifecycle_sessions_judged", 0) + len(starts)
     rep.extra["lifecycle_events"] = rep.extra.get("lifecycle_events", 0) + len(events)
     return verdicts
